@@ -45,12 +45,20 @@ type Shape struct {
 	// EmbedID: the ID field is declared in a struct embedded in the shape
 	// (struct{ Base; ... } with Base struct{ ID string `...` }).
 	EmbedID bool
+	// EmbedExtra: the struct also embeds a struct that declares a tagged
+	// attribute of its own (promoted to the outer struct by Go, but not a
+	// field the outer struct declares).
+	EmbedExtra bool
 }
 
 func (s Shape) String() string {
 	parts := make([]string, len(s.Fields))
 	for i, f := range s.Fields {
 		parts[i] = fmt.Sprintf("%s %v `%s`", f.Name, f.GoType, f.Tag())
+	}
+
+	if s.EmbedExtra {
+		parts = append(parts, "Extra (embedded, holds Promoted string `json:\"promoted\" api:\"attr\"`)")
 	}
 
 	if s.EmbedID {
@@ -74,6 +82,12 @@ func (s Shape) StructType() reflect.Type {
 		fields = append(fields, sf)
 	}
 
+	if s.EmbedExtra {
+		fields = append(fields, reflect.StructField{Name: "Extra", Anonymous: true, Type: reflect.StructOf([]reflect.StructField{
+			{Name: "Promoted", Type: reflect.TypeOf(""), Tag: `json:"promoted" api:"attr"`},
+		})})
+	}
+
 	return reflect.StructOf(fields)
 }
 
@@ -92,6 +106,9 @@ func ShapeFieldTypes() []reflect.Type {
 	// Defined types whose underlying type is a relationship's: not string
 	// and not []string.
 	ts = append(ts, reflect.TypeOf(NamedString("")), reflect.TypeOf([]NamedString{}), reflect.TypeOf(NamedStrings{}))
+
+	// Interface types: what such a field holds is not its type.
+	ts = append(ts, reflect.TypeOf((*any)(nil)).Elem(), reflect.TypeOf((*error)(nil)).Elem(), reflect.TypeOf((*fmt.Stringer)(nil)).Elem())
 
 	ts = append(ts,
 		reflect.TypeOf([]string{}), // to-many
@@ -194,6 +211,8 @@ func StructShape(t *rapid.T) Shape {
 	if len(s.Fields) > 1 {
 		s.Fields = rapid.Permutation(s.Fields).Draw(t, "order")
 	}
+
+	s.EmbedExtra = rapid.IntRange(0, 9).Draw(t, "embedextra") == 0
 
 	// A well-formed ID may also come from an embedded struct.
 	if idForm == "ok" && rapid.IntRange(0, 5).Draw(t, "embedid") == 0 {
